@@ -416,10 +416,7 @@ impl ExternalEquivalenceTask {
         formulas: &Vec<fol::AnnotatedFormula>,
     ) -> Result<(), ExternalEquivalenceTaskWarning, ExternalEquivalenceTaskError> {
         for formula in formulas {
-            if !(matches!(
-                formula.role,
-                fol::Role::Assumption | fol::Role::Spec | fol::Role::Definition
-            )) {
+            if !(matches!(formula.role, fol::Role::Assumption | fol::Role::Spec)) {
                 return Err(
                     ExternalEquivalenceTaskError::SpecificationContainsUnsupportedRoles(
                         formula.clone(),
